@@ -45,10 +45,23 @@ Qed.
 Definition dir_path (p : path) : bool :=
   match p with
   | [] | [CDb] | [CSub] | [CModels] | [CDb; CKey _] | [CDb; CKey _; CPharmpy]
-  | [CDb; CDatasets] | [CDb; CDatasets; CHash] | [CDb; CDatasets; CHash; CDh _] => true
+  | [CDb; CDatasets] | [CDb; CDatasets; CHash] | [CDb; CDatasets; CHash; CDh _]
+  | [CSub; CName _] | [CSub; CName _; CSub] | [CSub; CName _; CModels] => true      (* a subcontext *)
   | _ => false
   end.
-Definition link_path (p : path) : bool := match p with [CModels; CName _] => true | _ => false end.
+Definition link_path (p : path) : bool :=
+  match p with [CModels; CName _] | [CSub; CName _; CModels; CName _] => true | _ => false end.
+
+Lemma link_path_not_dir p : link_path p = true -> dir_path p = false.
+Proof.
+  intros H. destruct p as [|c1 p]; cbn in H; try discriminate. destruct c1; cbn in H; try discriminate.
+  - destruct p as [|c2 p]; cbn in H; try discriminate. destruct c2; cbn in H; try discriminate.
+    destruct p; cbn in H; [reflexivity | discriminate].
+  - destruct p as [|c2 p]; cbn in H; try discriminate. destruct c2; cbn in H; try discriminate.
+    destruct p as [|c3 p]; cbn in H; try discriminate. destruct c3; cbn in H; try discriminate.
+    destruct p as [|c4 p]; cbn in H; try discriminate. destruct c4; cbn in H; try discriminate.
+    destruct p; cbn in H; [reflexivity | discriminate].
+Qed.
 Definition file_path (p : path) : bool := negb (dir_path p) && negb (link_path p).
 
 Definition kindb (p : path) (n : node) : bool :=
@@ -602,7 +615,7 @@ Proof.
   destruct (HS q n E) as [Hk _]. destruct n as [|c|c|t]; [reflexivity| | |]; cbn in Hk.
   - unfold file_path in Hk. rewrite Hd in Hk. discriminate.
   - unfold file_path in Hk. rewrite Hd in Hk. discriminate.
-  - destruct q as [|[] [|[] [|? ?]]]; cbn in Hk, Hd; discriminate.
+  - rewrite (link_path_not_dir q Hk) in Hd. discriminate.
 Qed.
 
 Lemma shape_path_clear f p : shape f -> (forall q, is_prefix q p -> dir_path q = true) -> path_clear f p.
@@ -1219,6 +1232,24 @@ Proof.
 Qed.
 Lemma dsq_forget {A} (m : M A) : all_prog dsquiet m -> all_prog dsquiet (forget m).
 Proof. intros H. unfold forget. apply all_bind; [exact H | intro; apply all_ret]. Qed.
+Lemma dsq_sub_init s0 : all_prog dsquiet (sub_init s0).
+Proof. unfold sub_init, annot_path_at, cdir. all_tac dsquiet. Qed.
+Lemma dsq_store_annotation_at s0 name a : all_prog dsquiet (store_annotation_at (cdir (Some s0)) name a).
+Proof. unfold store_annotation_at, annot_lock_at, annot_path_at, annot_tmp_at, cdir. all_tac dsquiet. Qed.
+Lemma dsq_retrieve_annotation_at s0 name : all_prog dsquiet (retrieve_annotation_at (cdir (Some s0)) name).
+Proof. unfold retrieve_annotation_at, annot_lock_at, annot_path_at, cdir. all_tac dsquiet. Qed.
+Lemma dsq_sub_retrieve s0 name : all_prog dsquiet (sub_retrieve s0 name).
+Proof.
+  unfold sub_retrieve. apply all_bind; [apply all_get | intro f].
+  destruct (resolve_name_at (cdir (Some s0)) f name); [|apply all_fail].
+  apply all_bind; [apply dsq_snapshot; apply all_ret | intro].
+  apply all_bind; [apply dsq_snapshot; apply dsq_retrieve_model_entry | intro].
+  apply all_bind; [apply dsq_retrieve_annotation_at | intro]. apply all_ret.
+Qed.
+Lemma dsq_store_results c id : all_prog dsquiet (store_results c id).
+Proof. unfold store_results, results_json, results_csv, cdir. destruct c; all_tac dsquiet. Qed.
+Lemma dsq_retrieve_results c : all_prog dsquiet (retrieve_results c).
+Proof. unfold retrieve_results, results_json, cdir. destruct c; all_tac dsquiet. Qed.
 Lemma dsq_metadata K id : all_prog dsquiet (db_store_metadata K id).
 Proof. unfold db_store_metadata, transaction. all_tac dsquiet. Qed.
 
@@ -1287,6 +1318,20 @@ Proof.
   - eapply ds_inv_frame; [|exact HD]. intros q H1 H2. apply Hfr. unfold protected. auto.
 Qed.
 
+Lemma keeps_store_key_at s0 name K : keeps (store_key_at (cdir (Some s0)) name K).
+Proof.
+  intros f HJ. rewrite store_key_at_ops. set (lk := name_link_at (cdir (Some s0)) name).
+  destruct (path_exists f lk); [exact I|].
+  destruct (exists_ f (key_dir K)) eqn:E2; [|exact I].
+  assert (Hd : is_dir f (key_dir K) = true) by (apply shape_exists_dir; [exact (proj1 HJ) | reflexivity | exact E2]).
+  assert (Hfr : forall q, protected q -> lookup (apply_op (Symlink (key_dir K) lk) f) q = lookup f q).
+  { intros q Hq. apply apply_op_frame; cbn; [|discriminate]. intros [= <-]. destruct Hq as [H|[H|[H _]]]; discriminate. }
+  cbn [jsteps tear_op]. split; [intros j; exact HJ|]. split; [|exact I]. destruct HJ as [HS [HL HD]]. split; [|split].
+  - apply step_shape; [exact HS|]. split; [reflexivity|]. intros t p [= <- <-]. exact Hd.
+  - eapply link_inv_frame; [| |exact HL]; intros q Hq; apply Hfr; unfold protected; auto.
+  - eapply ds_inv_frame; [|exact HD]. intros q H1 H2. apply Hfr. unfold protected. auto.
+Qed.
+
 Lemma keeps_item i : keeps (item_prog i).
 Proof.
   destruct i; cbn [item_prog].
@@ -1301,6 +1346,12 @@ Proof.
   - apply keeps_dsquiet, dsq_forget, dsq_snapshot, dsq_read_model.
   - apply keeps_dsquiet, dsq_forget, dsq_retrieve_annotation.
   - apply keeps_dsquiet, dsq_forget, dsq_retrieve_log.
+  - apply keeps_dsquiet, dsq_sub_init.
+  - unfold sub_store. apply keeps_bind; [apply keeps_db_store | intro].
+    apply keeps_bind; [apply keeps_store_key_at | intro]. apply keeps_dsquiet, dsq_store_annotation_at.
+  - apply keeps_dsquiet, dsq_forget, dsq_sub_retrieve.
+  - apply keeps_dsquiet, dsq_store_results.
+  - apply keeps_dsquiet, dsq_forget, dsq_retrieve_results.
 Qed.
 
 Lemma trace_keeps w : forall f0, J f0 -> jsteps (trace w f0) f0.
